@@ -187,7 +187,6 @@ def build() -> Check:
     preds, memo, stale = stale_negative_verdicts(sc.node, fn.name)
     ck.analysed["guard_predicates"] = preds
     ck.analysed["negative_memo_attrs"] = sorted(memo)
-    ck.floor("guard_predicates", len(preds), 1)
     ck.ob("R7.no-stale-negative-verdict", c_cc, not stale, stale[0][1] if stale else f"predicates {preds}, negative memo attributes: {sorted(memo) or 'none'}")
     for gname, why in stale[1:]:
         ck.ob("R7.no-stale-negative-verdict", f"state.py:ExecutionState.{gname}", False, why)
@@ -216,8 +215,12 @@ def build() -> Check:
     ck.analysed["verdict_sets"] = sorted(pos_attrs)
     ck.analysed["link_maps"] = sorted(link_attrs)
     walk = sc.methods[preds[0]] if preds else None
-    if walk is None or not pos_attrs or len(walk.node.args.args) != 2:
-        raise AnalysisError("orphan guard predicate (one parameter: the parent id) not found")
+    ck.ob("R3.guard-walks-the-parent-links", c_cc, walk is not None,
+          "the test that rejects an update calls no predicate over the update's parent link: only operations in a pre-computed set can be stopped")
+    if walk is None:
+        return _finish_executor_rules(ck, prog, pm)
+    if not pos_attrs or len(walk.node.args.args) != 2:
+        raise AnalysisError("orphan guard predicate (one parameter: the parent id) not understood")
     pname = walk.node.args.args[1].arg
     all_attrs = {a for pn in preds for a in [_a.attr for _a in ast.walk(sc.methods[pn].node) if isinstance(_a, ast.Attribute) and isinstance(_a.value, ast.Name) and _a.value.id == "self"]}
     sources = sorted(link_attrs) + ["<history>"]
@@ -259,6 +262,10 @@ def build() -> Check:
     ck.ob("R3.ancestor-walk-reaches-every-level", fn_construct(walk), not bad_walk,
           (f"{len(bad_walk)}/{n_sc} scenarios: " + bad_walk[0]) if bad_walk else f"{n_sc} scenarios")
 
+    return _finish_executor_rules(ck, prog, pm)
+
+
+def _finish_executor_rules(ck, prog, pm):
     # R5 / R6 from the executor table
     n_first = 0
     for name, ci in pm.executors.items():
